@@ -311,7 +311,7 @@ fn scenario(case: Case) -> impl Fn(&mut Chooser) -> Result<u64, Violation> + Syn
 }
 
 pub fn cases(tier: Tier) -> Vec<(Case, u8)> {
-    let (dev_call, dev_event) = tier.pick((3u8, 2u8), (6u8, 5u8));
+    let (dev_call, dev_event) = tier.pick((3u8, 2u8), (8u8, 6u8));
     vec![
         (Case { mode: Mode::CallDriven, chunks: [vec![3, 2], vec![2, 3]], errors: true, max_clock: 0 }, dev_call),
         (Case { mode: Mode::CallDriven, chunks: [vec![4], vec![]], errors: true, max_clock: 0 }, dev_call + 1),
